@@ -229,6 +229,10 @@ pub fn assemble<S>(
             assembly.defs.as_mut().unwrap(),
             opts.max_iterations)?);
 
+        // Failed `#assert` directives report errors
+        // without aborting the final resolution pass
+        report.stop_at_errors()?;
+
         output::check_bank_overlap(
             report,
             assembly.decls.as_ref().unwrap(),
